@@ -330,3 +330,11 @@ Definition bassign_ok (rf : list (list nat)) (tpls : list (list nref)) (asg : li
   && list_eqb_nat (map asg_a (rows_of 0 asg)) (map asg_a (rows_of 1 asg))
   && forallb (fun a => existsb (fun s => Nat.eqb (asg_a s) a) (rows_of 0 asg)) (seq 0 (length rf))
   && forallb (fun s => asg_row s <? 2) asg.
+
+(* ------------------------------------------------------------------ second-order classes *)
+(* how MeshXxx2._uniform / _adaptive is written: through from_mesh alone (all tags dropped before the linear class
+   refines) or through the linear class carrying the subdomains, which are copied back *)
+Inductive via2 := ViaFromMesh | ViaCarry.
+(* M = what refinement sees of a mesh (vertex connectivity and tags); lin = refinement by the first-order class *)
+Definition refine_second {M} (v : via2) (lin : M -> M) (drop_tags : M -> M) (m : M) : M :=
+  match v with ViaCarry => lin m | ViaFromMesh => lin (drop_tags m) end.
